@@ -190,6 +190,189 @@ def eval_expr(expr, rep, ops):
     return ev(sympy.sympify(expr))
 
 
+def _entry_matrix(rep, x):
+    """Matrix on the Fock space of one entry of an operator-valued result."""
+    from pymablock.series import zero as _zero, one as _one
+    if x is _zero or x == 0:
+        return np.zeros((rep.dim, rep.dim), dtype=complex)
+    x = NOF.from_expr(x, list(rep.ops)) if not isinstance(x, NOF) else x
+    if list(x.operators) != list(rep.ops):
+        x = x._expand_operators(list(rep.ops))
+    return rep.nof_matrix(x)
+
+
+def _nonzero(rep, x, margin):
+    """True iff the NumberOrderedForm x is not the zero operator: some coefficient does not simplify to zero and the
+    matrix on interior Fock states is non-zero as well."""
+    if all(sympy.simplify(v) == 0 for v in x.terms.values()):
+        return False
+    return compare_on_interior(rep, _entry_matrix(rep, x), np.zeros((rep.dim, rep.dim)), margin) > 1e-8
+
+
+def _block_matrix(rep, blk, shape):
+    from pymablock.series import zero as _zero, one as _one
+    r, c = shape
+    out = np.zeros((r * rep.dim, c * rep.dim), dtype=complex)
+    if blk is _zero:
+        return out
+    if blk is _one:
+        return np.eye(r * rep.dim, dtype=complex)
+    if not isinstance(blk, sympy.MatrixBase):
+        blk = sympy.Matrix([[blk]])
+    for i in range(r):
+        for j in range(c):
+            out[i * rep.dim:(i + 1) * rep.dim, j * rep.dim:(j + 1) * rep.dim] = _entry_matrix(rep, blk[i, j])
+    return out
+
+
+def section_secondq():
+    """C07: operator-valued block_diagonalize against numpy block_diagonalize of the truncated matrices, on Fock states far from the edge."""
+    global cases
+    from pymablock import block_diagonalize
+    R = sympy.Rational
+    a, b = BosonOp("a"), BosonOp("b")
+    s = pauli.SigmaMinus("s")
+    c, d, e = FermionOp("c"), FermionOp("d"), FermionOp("e")
+    Na, Nb, Ns, Nc, Nd, Ne = (NumberOperator(o) for o in (a, b, s, c, d, e))
+    sx = pauli.SigmaX("s")
+    models = [
+        # name, operators, H0 (scalar or matrix), H1, Fock cutoff, max order, block labels of the matrix index (None: single block), numeric mask maker
+        ("anharmonic boson", [a], Na + R(1, 5) * Na ** 2, a + Dagger(a) + R(1, 3) * (a ** 2 + Dagger(a) ** 2), 14, 3, None),
+        ("two bosons, beam splitter and squeezing", [a, b], Na + R(3, 7) * Nb, Dagger(a) * b + Dagger(b) * a + R(1, 2) * (a * b + Dagger(a) * Dagger(b)), 7, 2, None),
+        ("Jaynes-Cummings with counter-rotating terms", [a, s], Na + R(3, 7) * Ns, (a + Dagger(a)) * sx, 12, 3, None),
+        ("three fermions, hopping and pairing", [c, d, e], R(1, 2) * Nc + R(4, 3) * Nd + R(16, 7) * Ne + R(1, 5) * Nc * Nd,
+         Dagger(c) * d + Dagger(d) * c + c * e + Dagger(e) * Dagger(c) + 2 * (d * e + Dagger(e) * Dagger(d)), 2, 3, None),
+        ("spin, two fermions and a boson", [a, s, c, d], R(3, 7) * Ns + Na + R(5, 11) * Nc + R(2, 3) * Nd,
+         sx + (Dagger(c) * d + Dagger(d) * c) * (1 + a + Dagger(a)), 9, 3, None),
+        ("matrix-valued, two blocks", [a], sympy.Matrix([[Na, 0], [0, Na + R(5, 3)]]), sympy.Matrix([[a + Dagger(a), 2 * a], [2 * Dagger(a), Na]]), 12, 3, [0, 1]),
+    ]
+    import os
+    import time
+    thorough = os.environ.get("VERIF_TIER", "quick") == "thorough"
+    timing = {}
+    for name, ops, H0, H1, D, N, labels in models:
+        if not thorough:
+            N = min(N, 2)
+        cases += 1
+        t0 = time.time()
+        try:
+            ops = sort_ops(ops)
+            rep = Rep(ops, D=D)
+            matrix_valued = isinstance(H0, sympy.MatrixBase)
+            m = H0.rows if matrix_valued else 1
+            H0m = H0 if matrix_valued else sympy.Matrix([[H0]])
+            H1m = H1 if matrix_valued else sympy.Matrix([[H1]])
+            kw = {"subspace_indices": labels} if labels else {}
+            Ht, U, Ud = block_diagonalize([H0m, H1m], **kw)
+            # truncated matrices of the same Hamiltonian, built independently from the elementary matrices
+            def big(M):
+                out = np.zeros((m * rep.dim, m * rep.dim), dtype=complex)
+                for i in range(m):
+                    for j in range(m):
+                        out[i * rep.dim:(i + 1) * rep.dim, j * rep.dim:(j + 1) * rep.dim] = eval_expr(M[i, j], rep, ops)
+                return out
+            h0, h1 = big(H0m), big(H1m)
+            if np.abs(h0 - np.diag(np.diag(h0))).max() > 1e-12:
+                fail("secondq", "battery error: H_0 is not diagonal in the Fock basis", model=name)
+                continue
+            sub = [labels[i] for i in range(m) for _ in range(rep.dim)] if labels else None
+            nkw = {"subspace_indices": sub} if labels else {}
+            Htn, Un, _ = block_diagonalize([np.diag(np.diag(h0).real), h1], **nkw)
+            nb = (max(labels) + 1) if labels else 1
+            rows = [[i for i in range(m) if (labels[i] if labels else 0) == blk] for blk in range(nb)]
+            interior = rep.interior(N + max_shift(NOF.from_expr(sum(H1m), ops)) * N + 1)
+            for order in range(N + 1):
+                for (S, Sn, nm) in ((Ht, Htn, "H_tilde"), (U, Un, "U")):
+                    for bi in range(nb):
+                        for bj in range(nb):
+                            got = _block_matrix(rep, S[(bi, bj, order)], (len(rows[bi]), len(rows[bj])))
+                            ref = Sn[(bi, bj, order)]
+                            from pymablock.series import zero as _zero, one as _one
+                            shape = (len(rows[bi]) * rep.dim, len(rows[bj]) * rep.dim)
+                            if ref is _zero:
+                                ref = np.zeros(shape)
+                            elif ref is _one:
+                                ref = np.eye(shape[0])
+                            elif hasattr(ref, "toarray"):
+                                ref = ref.toarray()
+                            ref = np.asarray(ref, dtype=complex)
+                            cols = np.concatenate([interior for _ in rows[bj]])
+                            err = np.abs(got[:, cols] - ref[:, cols]).max(initial=0)
+                            if err > 1e-7 * max(1.0, np.abs(ref).max(initial=0)):
+                                fail("secondq", "operator-valued result differs from the block-diagonalized truncated matrices on interior Fock states",
+                                     model=name, output=nm, block=(bi, bj), order=order, err=float(err))
+            # unitarity and U^dagger H U = H_tilde within the operator algebra (single-block models), to total order N
+            if not labels:
+                from pymablock.series import zero as _zero, one as _one
+                def val(S, k):
+                    v = S[(0, 0, k)]
+                    if v is _zero:
+                        return sympy.zeros(m, m)
+                    if v is _one:
+                        return sympy.eye(m)
+                    return v
+                Hs = {0: H0m.applyfunc(lambda x: NOF.from_expr(x, ops)), 1: H1m.applyfunc(lambda x: NOF.from_expr(x, ops))}
+                for k in range(1, N + 1):
+                    tot = sympy.zeros(m, m)
+                    for i in range(k + 1):
+                        tot = tot + val(Ud, i) * val(U, k - i)
+                    if any(_nonzero(rep, NOF.from_expr(x, ops), 3 * N + 2) for x in tot):
+                        fail("secondq", "U^dagger U != 1 within the operator algebra", model=name, order=k)
+                    tot = sympy.zeros(m, m)
+                    for i in range(k + 1):
+                        for j in range(k - i + 1):
+                            hk = k - i - j
+                            if hk in Hs:
+                                tot = tot + val(Ud, i) * Hs[hk] * val(U, j)
+                    diff = (tot - val(Ht, k)).applyfunc(lambda x: NOF.from_expr(x, ops))
+                    if any(_nonzero(rep, x, 3 * N + 2) for x in diff):
+                        fail("secondq", "U^dagger H U != H_tilde within the operator algebra", model=name, order=k)
+        except Exception:
+            import traceback
+            fail("secondq", "model raised", model=name, error=traceback.format_exc()[-900:])
+    # operator-valued elimination masks (incl. a symbolic power) against boolean masks on the truncated matrices
+    k = sympy.symbols("k", integer=True, nonnegative=True)
+    D, N = 12, 3
+    rep = Rep([a], D=D)
+    H0 = sympy.Matrix([[Na + R(3, 14), 0], [0, Na - R(3, 14)]])
+    H1 = sympy.Matrix([[0, a + Dagger(a)], [a + Dagger(a), 0]])
+    lab = np.arange(D)
+    dn = lab.reshape(-1, 1) - lab           # row occupation minus column occupation
+    for mname, mask, elim in (
+        ("first-order terms only", sympy.Matrix([[0, a + Dagger(a)], [a + Dagger(a), 0]]), lambda i, j: (i != j) * (np.abs(dn) == 1)),
+        ("creation powers above / annihilation below", sympy.Matrix([[0, Dagger(a) ** k], [a ** k, 0]]),
+         lambda i, j: ((i, j) == (0, 1)) * (dn >= 0) + ((i, j) == (1, 0)) * (dn <= 0)),
+    ):
+        cases += 1
+        try:
+            Ht, U, Ud = block_diagonalize([H0, H1], fully_diagonalize=mask)
+            el = np.zeros((2 * D, 2 * D), dtype=bool)
+            for i in range(2):
+                for j in range(2):
+                    el[i * D:(i + 1) * D, j * D:(j + 1) * D] = np.asarray(elim(i, j), dtype=bool) * np.ones((D, D), dtype=bool)
+            h0 = np.zeros((2 * D, 2 * D))
+            h1 = np.zeros((2 * D, 2 * D), dtype=complex)
+            for i in range(2):
+                for j in range(2):
+                    h0[i * D:(i + 1) * D, j * D:(j + 1) * D] = eval_expr(H0[i, j], rep, [a]).real
+                    h1[i * D:(i + 1) * D, j * D:(j + 1) * D] = eval_expr(H1[i, j], rep, [a])
+            Htn, Un, _ = block_diagonalize([h0, h1], fully_diagonalize={0: el})
+            interior = rep.interior(2 * N + 2)
+            cols = np.concatenate([interior, interior])
+            for order in range(N + 1):
+                for S, Sn, nm in ((Ht, Htn, "H_tilde"), (U, Un, "U")):
+                    got = _block_matrix(rep, S[(0, 0, order)], (2, 2))
+                    ref = Sn[(0, 0, order)]
+                    from pymablock.series import zero as _zero, one as _one
+                    ref = np.zeros((2 * D, 2 * D)) if ref is _zero else (np.eye(2 * D) if ref is _one else np.asarray(ref.toarray() if hasattr(ref, "toarray") else ref, dtype=complex))
+                    err = np.abs(got[:, cols] - ref[:, cols]).max(initial=0)
+                    if err > 1e-7 * max(1.0, np.abs(ref).max(initial=0)):
+                        fail("secondq", "operator-valued elimination mask: result differs from the masked matrix computation", mask=mname, output=nm, order=order, err=float(err))
+        except Exception:
+            import traceback
+            fail("secondq", "masked model raised", mask=mname, error=traceback.format_exc()[-900:])
+
+
 for name in sections:
     fn = globals().get("section_" + name)
     if fn is None:
